@@ -167,6 +167,28 @@ def run_c11(ctx, C):
     codec_common(ctx, C, [GEN_TRANSFORMS], [], traces=())
 
 
+GEN_EAP = dict(module="Gen_Eap", name="eap")
+DRV_EAP = dict(name="randeap", driver="randeap", n_quick=600, n_thorough=20000)
+MC_AKA = dict(module="AkaSession", name="akasession", constants=dict(MacOverWire=True, SameKey=True), invariants=("ReceiverAgrees", "Sensitive"),
+              what="EAP-AKA' packet from sender (any attribute order / reserved octets) through an adversary to the receiver")
+MC_AKA2 = dict(module="AkaSession", name="akasession_otherkey", constants=dict(MacOverWire=True, SameKey=False), invariants=("ReceiverAgrees", "Sensitive"),
+               what="the same with a receiver holding another key")
+MC_AKA_KNOB = dict(module="AkaSession", name="akasession_knob_MacOverWire", expect="violate", constants=dict(MacOverWire=False, SameKey=True),
+                   invariants=("ReceiverAgrees", "Sensitive"), what="sanity: a receiver that re-serialises before computing the code rejects honest packets in another order")
+
+
+def run_c14(ctx, C):
+    codec_common(ctx, C, [GEN_EAP], [DRV_EAP], traces=("Trace_Codec",))
+
+
+def run_c15(ctx, C):
+    codec_common(ctx, C, [GEN_EAP], [], mcs=[MC_AKA, MC_AKA2, MC_AKA_KNOB], traces=())
+
+
+def run_c16(ctx, C):
+    codec_common(ctx, C, [GEN_EAP], [], traces=())
+
+
 def run_c06(ctx, C):
     codec_common(ctx, C, [GEN_SK], [], mcs=[MC_SK], traces=("Trace_SK",))
 
@@ -176,6 +198,21 @@ def run_c04(ctx, C):
 
 
 PLANS = {
+    "C14": dict(level="model_checking", run=run_c14, assumptions=ASSUME_CODEC,
+                rule="EAPWire.tla reference codec (RFC 3748 / 4187 / 5448) checked against itself by TLC; all 256 codes with and without data; "
+                     "Identity/Notification/Nak/Expanded pools incl. EAP-5G; EAP-AKA' subsets of the 7 settable attributes, RES 4..16, KDF_INPUT "
+                     "{0..5,8,9,251..253,300}, CHECKCODE {0,20,32}; the setter offered EVERY size 0..300 for each of the 7 attribute types; library "
+                     "octets judged by the strict parser (length, words, zero padding, bit length, distinct types), attributes read back, double "
+                     "Marshal; random packets recorded and judged by TLC"),
+    "C15": dict(level="model_checking", run=run_c15, assumptions=ASSUME_SK,
+                rule="AkaSession.tla model-checked (ReceiverAgrees, Sensitive; knob-off sanity run); sender side: every AKA' packet of the pool x K_aut "
+                     "lengths {0,1,16,32,33,64,65}, with a stale AT_MAC value, against HMAC-SHA-256-128 over the reference encoding with zeroed MAC; "
+                     "receiver side: packets from the independent encoder in EVERY attribute order (all permutations of up to 5 attributes) and with "
+                     "non-zero reserved octets, one flipped bit, another key: Unmarshal then CalcEapAkaPrimeAtMAC must give the code over the wire octets"),
+    "C16": dict(level="model_checking", run=run_c16, assumptions=ASSUME_SK,
+                rule="IK' x CK' lengths {0,1,15,16,17,32,64}^2 (unequal lengths expose swapped concatenation) x 7 identities (empty, ASCII, NUL octets, "
+                     "0x80-0xff ramp, invalid UTF-8, 255 octets): the five outputs against PRF' terms (7 HMAC-SHA-256 blocks as named terms, counter "
+                     "octet from 1, slices 0-15 / 16-47 / 48-79 / 80-143 / 144-207); empty IK' or CK' must be an error"),
     "C11": dict(level="model_checking", run=run_c11, assumptions=ASSUME_CODEC, exhaustive=True,
                 rule="Transforms.tla: registry and mapping as finite functions (bijection on the advertised set checked by TLC); every advertised "
                      "algorithm -> transform (lengths from the RFC tables) -> wire -> algorithm; transform identifiers (quick: 0..40 and boundary / "
